@@ -85,6 +85,14 @@ def tr_expr(e, cx):
         return unsupported(e)
     if k == 'path':
         segs = e['segs']
+        if len(segs) == 2 and not e.get('leading_colon') and segs[1] in ('MAX', 'MIN') and ity(segs[0]) and segs[0] != 'usize':
+            # u8::MAX, i16::MIN, ...: associated constants of the primitive integers
+            w = int(segs[0][1:])
+            if segs[0][0] == 'u':
+                val = (1 << w) - 1 if segs[1] == 'MAX' else 0
+            else:
+                val = (1 << (w - 1)) - 1 if segs[1] == 'MAX' else (1 << (w - 1))
+            return '(ELit %s %d)' % (ity(segs[0]), val)
         if len(segs) == 1 and not e.get('leading_colon'):
             x = segs[0]
             if x in cx.locals:
